@@ -11,8 +11,9 @@ HARNESS = os.path.join(vlib.VERIF, "harness", "c20.cc")
 GEN_INC = os.path.join(vlib.VERIF, ".cache", "gen")
 
 
-def build():
-    tr.translate()
+def build(translate=True):
+    if translate:
+        tr.translate()
     if "-I" + GEN_INC not in vbuild.INCLUDES:
         vbuild.INCLUDES.append("-I" + GEN_INC)
     return vbuild.build_exe("c20", [HARNESS], ["tools"])
@@ -31,7 +32,7 @@ def run(tier, seed, replay=None):
         ob["ok"] = False
         ob["failures"].append(tr_err)
     try:
-        exe = build()
+        exe = build(translate=False)     # the translator has written the enumerator include (also when a table could not be translated)
         rc, out, err = vlib.run_harness(exe, [])
         if rc != 0:
             ck.aborts.append({"what": "harness exited %d: %s" % (rc, err[-300:]), "lines": []})
